@@ -42,7 +42,7 @@ META = dict(
     need=["quantile_points", "monotone_checks", "inverse_points", "jacobian_points", "moment_checks",
           "property_checks", "re_pairs", "cl_pairs", "interp_pairs"],
     quick=dict(cases=1900, workers=6, budget_s=60),
-    thorough=dict(cases=60000, workers=16, budget_s=700),
+    thorough=dict(cases=30000, workers=16, budget_s=700),
     design_ref="DESIGN.md §5 C30",
     level_text=("every generated (transform, parameter) pair is compared point-wise with the scipy "
                 "quantile function on a tail-to-tail grid; exploration of the parameter ranges"),
@@ -145,6 +145,9 @@ def judge(ck, sp, x):
             cond_T = cond / np.maximum(np.abs(q - sp.get("loc", 0.0)), 1e-300)
         else:
             cond_T = cond / it["post_scale"]
+        # ... and the tabulated values themselves are rounded to double precision (matters where the
+        # quantile saturates, e.g. Beta with b < 1 near 1: slope of the table ~ 1e-11, values ~ 1)
+        cond_T = cond_T + 2 * EPS * np.abs(gfun(x))
         e_T = e_T + namp * cond_T
         e_Tp = e_Tp + 6.0 * namp * cond_T / h
         ck.hit("interp_pairs")
